@@ -329,7 +329,7 @@ Proof.
       as [t1 [nch1 [E I1]]].
     + apply (r_chain _ _ _ R). exact Hj.
     + eapply rep_fuel; eauto.
-    + rewrite E. cbn [bind]. apply IH; [lia|exact I1].
+    + rewrite E. cbn [bind]. apply (IH t1 nch1); [lia|exact I1].
 Qed.
 End Resize.
 
@@ -344,8 +344,9 @@ Proof.
                 (mkT (aempty None) n n (cnt t) (dflt t) (ekey t) (evl t) (enext t) (elive t) (nid t))
                 (fun _ => [])) as [t' [ch' [E I]]].
     + lia.
-    + constructor; cbn; auto.
+    + constructor; cbn [tab tlen thr cnt dflt ekey evl enext elive nid]; try reflexivity.
       * intros i _. rewrite get_empty. constructor.
+      * intros i e _ [].
       * now rewrite alld_nil.
     + exists t', ch'. split; [exact E|].
       destruct I as [Itl Icn Idf Iek Iev Ilv Ini Ich Irs Iix Ipm].
@@ -368,8 +369,315 @@ Proof.
         -- apply (rep_all_nil_l _ _ _ R).
            pose proof (r_chain _ _ _ R 0 ltac:(lia)) as Hc.
            rewrite (tget_one _ _ E1), Hd in Hc. apply chain_none in Hc.
-           unfold nb. rewrite E1. cbn. now rewrite Hc.
+           unfold nb. rewrite E1. change (N.to_nat 1) with 1%nat. cbn [alld].
+           change (N.of_nat 0) with 0. now rewrite Hc.
         -- apply (r_dflt _ _ _ R); [pose proof (r_len _ _ _ R); lia|exact Hd].
+Qed.
+
+(* ---- insertEntry ---------------------------------------------------------------------- *)
+Lemma insert_entry_chains t x idx ch :
+  idx < tlen t ->
+  (forall i, i < tlen t -> chain (elive t) (enext t) (tget t i) (ch i)) ->
+  get (elive t) x = true ->
+  (forall i, i < tlen t -> ~ In x (ch i)) ->
+  (dflt t = None -> forall i, i < tlen t -> ch i = []) ->
+  let t' := insert_entry t x idx in
+  (forall i, i < tlen t -> chain (elive t') (enext t') (tget t' i) (upd ch idx (x :: ch idx) i)) /\
+  tlen t' = tlen t /\ cnt t' = cnt t /\ ekey t' = ekey t /\ evl t' = evl t /\
+  elive t' = elive t /\ nid t' = nid t /\ dflt t' <> None.
+Proof.
+  intros Hidx Hch Hlx Hnx Hnil.
+  destruct t as [tb tl th cn df ek ev en el ni]. cbn [tlen elive enext dflt] in *.
+  unfold insert_entry. cbn [dflt].
+  destruct df as [d|].
+  - (* defaultEntry != nullptr *)
+    destruct (N.eq_dec tl 1) as [E1|E1].
+    + rewrite tset_one by exact E1. cbn. repeat split; try congruence.
+      intros i Hi. assert (i = idx) by lia. subst i. rewrite upd_same.
+      unfold tget. cbn. apply N.eqb_eq in E1. rewrite E1.
+      constructor; [exact Hlx|]. rewrite gss.
+      apply chain_set_next; [now apply Hnx|].
+      specialize (Hch idx Hidx). unfold tget in Hch. cbn in Hch. now rewrite E1 in Hch.
+    + rewrite tset_big by exact E1. cbn. repeat split; try congruence.
+      intros i Hi. rewrite !tget_big by exact E1. cbn. unfold upd. rewrite get_set.
+      destruct (N.eqb_spec i idx) as [->|Hd].
+      * constructor; [exact Hlx|]. rewrite gss. apply chain_set_next; [now apply Hnx|].
+        specialize (Hch idx Hidx). now rewrite tget_big in Hch by exact E1.
+      * apply chain_set_next; [now apply Hnx|].
+        specialize (Hch i Hi). now rewrite tget_big in Hch by exact E1.
+  - (* defaultEntry == nullptr: the new entry ends its chain *)
+    specialize (Hnil eq_refl).
+    destruct (N.eq_dec tl 1) as [E1|E1].
+    + rewrite tset_one by exact E1. cbn. repeat split; try congruence.
+      intros i Hi. assert (i = idx) by lia. subst i. rewrite upd_same, (Hnil idx Hidx).
+      unfold tget. cbn. apply N.eqb_eq in E1. rewrite E1.
+      constructor; [exact Hlx|]. rewrite gss. constructor.
+    + rewrite tset_big by exact E1. cbn. repeat split; try congruence.
+      intros i Hi. rewrite !tget_big by exact E1. cbn. unfold upd. rewrite get_set.
+      destruct (N.eqb_spec i idx) as [->|Hd].
+      * rewrite (Hnil idx Hidx). constructor; [exact Hlx|]. rewrite gss. constructor.
+      * apply chain_set_next; [now apply Hnx|].
+        specialize (Hch i Hi). now rewrite tget_big in Hch by exact E1.
+Qed.
+
+(* count++, NewEntry, insertEntry for a key that is not in the table *)
+Lemma rep_add_new t l ch k ov :
+  Rep t l ch -> alookup k l = None ->
+  let x := nid t in
+  let idx := index_of t k in
+  let t3 := insert_entry (fst (new_entry (with_cnt t (cnt t + 1)) k ov)) x idx in
+  let ch' := upd ch idx (x :: ch idx) in
+  Rep t3 ((k, get (evl t3) x) :: l) ch' /\ In x (alld ch' (nb t3)) /\
+  get (ekey t3) x = k /\ get (elive t3) x = true /\
+  (forall v, ov = Some v -> get (evl t3) x = v).
+Proof.
+  intros R Hnone x idx.
+  pose proof (index_lt t k (r_len _ _ _ R)) as Hidx. fold idx in Hidx.
+  assert (Hxall : ~ In x (alld ch (nb t))).
+  { intro H. apply (r_fresh _ _ _ R) in H. unfold x in H. lia. }
+  assert (Hxn : forall i, i < tlen t -> ~ In x (ch i)).
+  { intros i Hi H. apply Hxall. eapply rep_in_all; eauto. }
+  set (t2 := fst (new_entry (with_cnt t (cnt t + 1)) k ov)).
+  assert (Hch2 : forall i, i < tlen t2 -> chain (elive t2) (enext t2) (tget t2 i) (ch i)).
+  { intros i Hi. unfold t2, new_entry, with_cnt in *. cbn in *.
+    apply chain_set_live; [now apply Hxn|]. apply (r_chain _ _ _ R i Hi). }
+  assert (Hnil2 : dflt t2 = None -> forall i, i < tlen t2 -> ch i = []).
+  { unfold t2, new_entry, with_cnt. cbn. intros Hd i Hi.
+    destruct (N.eq_dec (tlen t) 1) as [E1|E1].
+    - pose proof (r_chain _ _ _ R i Hi) as Hc. rewrite (tget_one _ _ E1), Hd in Hc.
+      now apply chain_none in Hc.
+    - eapply rep_l_nil_buckets; [exact R| |exact Hi].
+      apply (r_dflt _ _ _ R); [pose proof (r_len _ _ _ R); lia|exact Hd]. }
+  assert (Hlx2 : get (elive t2) x = true).
+  { unfold t2, new_entry, with_cnt. cbn. apply gss. }
+  destruct (insert_entry_chains t2 x idx ch) as [Hch3 [Htl [Hcn [Hek [Hev [Hlv [Hni Hdf]]]]]]];
+    try assumption.
+  intros t3 ch'. fold t3 in Hch3, Htl, Hcn, Hek, Hev, Hlv, Hni, Hdf. fold ch' in Hch3.
+  assert (Htl2 : tlen t2 = tlen t) by reflexivity.
+  assert (Hnb : nb t3 = nb t) by (unfold nb; now rewrite Htl, Htl2).
+  assert (Hperm : Permutation (alld ch' (nb t3)) (x :: alld ch (nb t))).
+  { rewrite Hnb. apply alld_upd_cons; [apply lt_nb; exact Hidx|reflexivity]. }
+  assert (Hkx : get (ekey t3) x = k).
+  { rewrite Hek. unfold t2, new_entry, with_cnt. cbn. apply gss. }
+  assert (Hko : forall e, e <> x -> kv t3 e = kv t e).
+  { intros e He. unfold kv. rewrite Hek, Hev. unfold t2, new_entry, with_cnt. cbn.
+    rewrite gso by exact He. destruct ov; [rewrite gso by exact He|]; reflexivity. }
+  split; [|split; [|split; [|split]]].
+  - constructor.
+    + rewrite Htl, Htl2. apply (r_len _ _ _ R).
+    + intros i Hi. apply Hch3. now rewrite Htl in Hi.
+    + eapply Permutation_NoDup; [apply Permutation_sym; exact Hperm|].
+      constructor; [exact Hxall|apply (r_nodup _ _ _ R)].
+    + intros i e Hi. rewrite Htl, Htl2 in Hi |- *. unfold ch', upd.
+      destruct (N.eqb_spec i idx) as [->|Hd].
+      * intros [<-|He]; [rewrite Hkx; reflexivity|].
+        assert (e <> x) by (intros ->; now apply (Hxn idx Hidx)).
+        pose proof (Hko e H) as E. unfold kv in E. injection E as -> _.
+        now apply (r_idx _ _ _ R).
+      * intro He. assert (e <> x) by (intros ->; now apply (Hxn i Hi)).
+        pose proof (Hko e H) as E. unfold kv in E. injection E as -> _.
+        now apply (r_idx _ _ _ R).
+    + rewrite (Permutation_map _ Hperm). cbn [map]. unfold kv at 1. rewrite Hkx.
+      constructor. rewrite (map_ext_in (kv t3) (kv t)); [apply (r_perm _ _ _ R)|].
+      intros e He. apply Hko. intros ->. contradiction.
+    + cbn. constructor; [now apply alookup_none|apply (r_keys _ _ _ R)].
+    + rewrite Hcn. unfold t2, new_entry, with_cnt. cbn [fst cnt length].
+      rewrite (r_cnt _ _ _ R). lia.
+    + intros e He. rewrite Hni. unfold t2, new_entry, with_cnt. cbn [fst nid].
+      eapply Permutation_in in He; [|exact Hperm]. destruct He as [<-|He]; [unfold x; lia|].
+      apply (r_fresh _ _ _ R) in He. lia.
+    + intros _ Hd. contradiction.
+  - eapply Permutation_in; [apply Permutation_sym; exact Hperm|now left].
+  - exact Hkx.
+  - now rewrite Hlv.
+  - intros v ->. rewrite Hev. unfold t2, new_entry, with_cnt. cbn. apply gss.
+Qed.
+
+(* ---- addKeyEntry ---------------------------------------------------------------------- *)
+Lemma increment_ok t l ch k :
+  Rep t l ch ->
+  exists tb chb, Rep tb l chb /\
+    increment t k (index_of t k) = Some (with_cnt tb (cnt tb + 1), index_of tb k).
+Proof.
+  intro R. unfold Model.increment. destruct (thr t <=? cnt t).
+  - unfold Model.rehash.
+    destruct (resize_ok t l ch (next_len primes (tlen t) 0) R) as [tb [chb [E Rb]]].
+    exists tb, chb. split; [exact Rb|]. rewrite E. reflexivity.
+  - exists t, ch. split; [exact R|reflexivity].
+Qed.
+
+Lemma add_key_entry_ok t l ch k ov :
+  Rep t l ch ->
+  exists t1 x l1 ch1, add_key_entry t k ov = Some (t1, x) /\ Rep t1 l1 ch1 /\
+    In x (alld ch1 (nb t1)) /\ get (ekey t1) x = k /\ get (elive t1) x = true /\
+    match alookup k l with
+    | Some w => l1 = l /\ get (evl t1) x = w
+    | None => l1 = (k, get (evl t1) x) :: l /\ (forall v, ov = Some v -> get (evl t1) x = v)
+    end.
+Proof.
+  intro R. unfold Model.add_key_entry.
+  destruct (rep_find t l ch k R) as [r [E Hr]]. rewrite E. cbn [bind].
+  destruct r as [x|].
+  - destruct Hr as [Hin [Hk Ha]].
+    pose proof (index_lt t k (r_len _ _ _ R)) as Hi.
+    exists t, x, l, ch. split; [reflexivity|]. split; [exact R|].
+    split; [eapply rep_in_all; eauto|]. split; [exact Hk|].
+    split; [eapply chain_live; [apply (r_chain _ _ _ R _ Hi)|exact Hin]|].
+    rewrite Ha. split; reflexivity.
+  - unfold Model.add_new_key_entry.
+    destruct (increment_ok t l ch k R) as [tb [chb [Rb Ei]]]. rewrite Ei. cbn [bind].
+    destruct (rep_add_new tb l chb k ov Rb Hr) as [R3 [Hin [Hk [Hl Hv]]]].
+    unfold new_entry in *. cbn [fst] in *.
+    eexists _, _, _, _. split; [reflexivity|]. split; [exact R3|].
+    split; [exact Hin|]. split; [exact Hk|]. split; [exact Hl|].
+    rewrite Hr. split; [reflexivity|exact Hv].
+Qed.
+
+(* ---- clear ---------------------------------------------------------------------------- *)
+Lemma chain_live_ext lv lv' nx h c :
+  (forall e, In e c -> get lv' e = get lv e) -> chain lv nx h c -> chain lv' nx h c.
+Proof.
+  intros H Hc. induction Hc as [|x c Hl Hc IH]; [constructor|].
+  constructor; [rewrite H by (now left); exact Hl|]. apply IH. intros e He. apply H. now right.
+Qed.
+
+Lemma clear_chain_ok : forall c h t fuel,
+  chain (elive t) (enext t) h c -> NoDup c -> (length c < fuel)%nat ->
+  exists t', clear_chain fuel t h = Some t' /\
+    tab t' = tab t /\ tlen t' = tlen t /\ dflt t' = dflt t /\ enext t' = enext t /\
+    (forall e, ~ In e c -> get (elive t') e = get (elive t) e).
+Proof.
+  induction c as [|x c IH]; intros h t fuel Hc Hnd Hf.
+  - apply chain_head_nil in Hc. subst h. exists t. split; [destruct fuel; reflexivity|]. tauto.
+  - pose proof (chain_head_cons _ _ _ _ _ Hc) as ->.
+    apply chain_some in Hc. destruct Hc as [c' [E [Hl Hc]]]. injection E as <-.
+    destruct fuel as [|f]; [cbn in Hf; lia|]. cbn [clear_chain]. rewrite Hl.
+    inversion Hnd as [|y ys Hn Hnd']; subst.
+    destruct (IH (get (enext t) x) (kill t x) f) as [t' [E [H1 [H2 [H3 [H4 H5]]]]]].
+    + cbn [kill elive enext]. apply chain_set_live; assumption.
+    + exact Hnd'.
+    + cbn in Hf. lia.
+    + exists t'. split; [exact E|]. cbn [kill tab tlen dflt enext elive] in *.
+      repeat split; try assumption.
+      intros e He. cbn in He. rewrite H5 by tauto. apply gso. intros ->. tauto.
+Qed.
+
+Lemma clear_buckets_ok ch fuel : forall m i t,
+  N.of_nat m + i = tlen t ->
+  NoDup (alld ch (nb t)) ->
+  (forall j, i <= j < tlen t -> chain (elive t) (enext t) (tget t j) (ch j)) ->
+  (forall j, j < tlen t -> (length (ch j) < fuel)%nat) ->
+  exists t', clear_buckets fuel t i m = Some t'.
+Proof.
+  induction m as [|m IH]; intros i t Hm Hnd Hch Hfu; cbn [clear_buckets].
+  - eexists. reflexivity.
+  - assert (Hi : i < tlen t) by lia.
+    destruct (clear_chain_ok (ch i) (tget t i) t fuel) as [t1 [E [H1 [H2 [H3 [H4 H5]]]]]].
+    + apply Hch. lia.
+    + eapply alld_bucket_nodup; [apply lt_nb; exact Hi|exact Hnd].
+    + now apply Hfu.
+    + rewrite E. cbn [bind].
+      assert (Hnb : nb t1 = nb t) by (unfold nb; now rewrite H2).
+      apply IH.
+      * rewrite H2. lia.
+      * now rewrite Hnb.
+      * intros j Hj. rewrite H2 in Hj.
+        assert (Hg : tget t1 j = tget t j) by (unfold tget; now rewrite H1, H2, H3).
+        rewrite Hg, H4. eapply chain_live_ext; [|apply Hch; lia].
+        intros e He. apply H5.
+        eapply (alld_disjoint ch j i (nb t)); try eassumption; try (apply lt_nb; lia). lia.
+      * intros j Hj. apply Hfu. now rewrite H2 in Hj.
+Qed.
+
+Lemma clear_ok t l ch :
+  Rep t l ch -> exists t', clear t = Some t' /\ Rep t' [] (fun _ => []).
+Proof.
+  intro R. unfold clear.
+  destruct (clear_buckets_ok ch (fuel_of t) (N.to_nat (tlen t)) 0 t) as [t1 E].
+  - lia.
+  - apply (r_nodup _ _ _ R).
+  - intros j Hj. apply (r_chain _ _ _ R). lia.
+  - intros j Hj. eapply rep_fuel; eauto.
+  - rewrite E. cbn [bind]. eexists. split; [reflexivity|].
+    constructor; cbn [tlen elive enext cnt nid dflt length map]; try (unfold nb; cbn [tlen]).
+    + lia.
+    + intros i _. rewrite tget_one by reflexivity. cbn. constructor.
+    + rewrite alld_nil. constructor.
+    + intros i e _ [].
+    + rewrite alld_nil. constructor.
+    + constructor.
+    + reflexivity.
+    + rewrite alld_nil. intros e [].
+    + lia.
+Qed.
+
+(* ---- remove --------------------------------------------------------------------------- *)
+Definition last_opt (l : list N) : option N :=
+  match rev l with [] => None | p :: _ => Some p end.
+
+Lemma last_opt_snoc l p : last_opt (l ++ [p]) = Some p.
+Proof. unfold last_opt. now rewrite rev_app_distr. Qed.
+
+Lemma last_opt_none l : last_opt l = None -> l = [].
+Proof.
+  unfold last_opt. destruct (rev l) eqn:E; [|discriminate]. intros _.
+  rewrite <- (rev_involutive l), E. reflexivity.
+Qed.
+
+Lemma last_opt_some l p : last_opt l = Some p -> exists l', l = l' ++ [p].
+Proof.
+  unfold last_opt. destruct (rev l) as [|q r] eqn:E; [discriminate|]. intro H. injection H as ->.
+  exists (rev r). rewrite <- (rev_involutive l), E. reflexivity.
+Qed.
+
+Lemma scan_default_some fuel t x i n : dflt t <> None -> scan_default fuel t x i n = Some t.
+Proof. intro H. destruct n; cbn; [reflexivity|]. destruct (dflt t); [reflexivity|contradiction]. Qed.
+
+Lemma with_dflt_eta t : with_dflt t (dflt t) = t.
+Proof. destruct t; reflexivity. Qed.
+
+Lemma opt_eqb_eq a c : opt_eqb a c = true -> a = c.
+Proof.
+  destruct a, c; cbn; try discriminate; [|reflexivity]. intro H. apply N.eqb_eq in H. now subst.
+Qed.
+
+(* the defaultEntry re-selection of remove(): only defaultEntry changes, it stays the cell
+   table[0] while tableLength == 1, and it stays non-null *)
+Lemma reselect_ok t l ch k pre x suf :
+  Rep t l ch -> ch (index_of t k) = pre ++ x :: suf ->
+  exists d1,
+    (if opt_eqb (dflt t) (Some x) then
+       let t0 := with_dflt t (match last_opt pre with
+                              | Some p => Some p
+                              | None => tget t (index_of t k)
+                              end) in
+       scan_default (fuel_of t) t0 x 0 (N.to_nat (tlen t0))
+     else Some t) = Some (with_dflt t d1) /\
+    (tlen t = 1 -> d1 = dflt t) /\ (dflt t <> None -> d1 <> None).
+Proof.
+  intros R Hc.
+  pose proof (index_lt t k (r_len _ _ _ R)) as Hi.
+  pose proof (r_chain _ _ _ R _ Hi) as Hch. rewrite Hc in Hch.
+  destruct (opt_eqb (dflt t) (Some x)) eqn:E.
+  - apply opt_eqb_eq in E. cbn zeta.
+    destruct (last_opt pre) as [p|] eqn:Hp.
+    + exists (Some p). split; [apply scan_default_some; cbn; discriminate|].
+      split; [|discriminate]. intro H1. exfalso.
+      apply last_opt_some in Hp. destruct Hp as [pre' ->].
+      rewrite (tget_one _ _ H1), E in Hch.
+      assert (Hnd : NoDup ((pre' ++ [p]) ++ x :: suf)).
+      { rewrite <- Hc. eapply alld_bucket_nodup; [apply lt_nb; exact Hi|apply (r_nodup _ _ _ R)]. }
+      destruct pre' as [|q pre']; cbn in Hch, Hnd.
+      * apply chain_head_cons in Hch. injection Hch as <-.
+        inversion Hnd as [|y ys Hn _]; subst. apply Hn. now left.
+      * apply chain_head_cons in Hch. injection Hch as <-.
+        inversion Hnd as [|y ys Hn _]; subst. apply Hn.
+        apply in_or_app. right. now left.
+    + apply last_opt_none in Hp. subst pre. cbn [app] in Hch.
+      apply chain_head_cons in Hch. rewrite Hch.
+      exists (Some x). split; [apply scan_default_some; cbn; discriminate|].
+      split; [now rewrite E|discriminate].
+  - exists (dflt t). rewrite with_dflt_eta. tauto.
 Qed.
 
 End WithHash.
